@@ -26,7 +26,7 @@ theorem bsPsInv_mul_bsPsMat {i c s p q : R} (hi : i * i = -1) (hcs : c * c + s *
     bsPsInv i c s q * bsPsMat i c s p = 1 := by
   ext a b
   fin_cases a <;> fin_cases b <;>
-    simp [bsPsInv, bsPsMat, Matrix.mul_apply, Fin.sum_univ_two, Matrix.one_apply]
+    simp [bsPsInv, bsPsMat, Matrix.mul_apply, Fin.sum_univ_two]
   · linear_combination c * c * hpq - s * s * hi + hcs
   · linear_combination i * s * c * hpq
   · linear_combination -(i * s * c) * hpq
@@ -36,7 +36,7 @@ theorem bsPsMat_mul_bsPsInv {i c s p q : R} (hi : i * i = -1) (hcs : c * c + s *
     bsPsMat i c s p * bsPsInv i c s q = 1 := by
   ext a b
   fin_cases a <;> fin_cases b <;>
-    simp [bsPsInv, bsPsMat, Matrix.mul_apply, Fin.sum_univ_two, Matrix.one_apply]
+    simp [bsPsInv, bsPsMat, Matrix.mul_apply, Fin.sum_univ_two]
   · linear_combination (c * c - i * i * s * s) * hpq - s * s * hi + hcs
   · linear_combination 0 * hi
   · linear_combination 0 * hi
@@ -69,11 +69,11 @@ theorem mziInv_mul_mziMat {i h ea eb fa fb : R} (hi : i * i = -1) (h2 : 2 * h = 
   have h4 : 4 * (h * h) = 1 := by linear_combination (2 * h + 1) * h2
   ext a b
   fin_cases a <;> fin_cases b <;>
-    simp [mziInv, mziMat, Matrix.mul_apply, Fin.sum_univ_two, Matrix.one_apply]
+    simp [mziInv, mziMat, Matrix.mul_apply, Fin.sum_univ_two]
   · linear_combination (-(h * h * (1 + fa) * (1 + ea) * fb * eb)) * hi +
       (h * h * (1 + fa) * (1 + ea)) * hb + (2 * (h * h)) * ha + h4
-  · linear_combination (h * h * i * (1 + fa) * (ea - 1)) * hb
-  · linear_combination (0 : R) * hi
+  · linear_combination (-(i * h * h * (1 + fa) * (ea - 1))) * hb - (2 * i * h * h) * ha
+  · linear_combination (i * h * h * (fa - 1) * (1 + ea)) * hb + (2 * i * h * h) * ha
   · linear_combination (-(h * h * (1 + fa) * (1 + ea))) * hi + (h * h * (fa - 1) * (ea - 1)) * hb +
       (2 * (h * h)) * ha + h4
 
@@ -88,10 +88,10 @@ theorem mzi_null_alg {i h c s fa fb a b ra ea rb eb : R} (hi : i * i = -1) (hcs 
     (hfa : fa = (c - i * s) * (c - i * s)) (ha : a = ra * ea) (hb : b = rb * eb)
     (hmod : s * ra = c * rb) (hph : fb * eb = ea) : nullEq (mziInv i h fa fb) a b = 0 := by
   have h1 : 1 - fa = 2 * s * (s + i * c) := by
-    rw [hfa]; linear_combination (s * s) * hi + hcs
+    rw [hfa]; linear_combination -hcs - (s * s) * hi
   have h2 : 1 + fa = 2 * c * (c - i * s) := by
-    rw [hfa]; linear_combination -(s * s) * hi + hcs
-  have h3 : s + i * c = i * (c - i * s) := by linear_combination -s * hi
+    rw [hfa]; linear_combination -hcs + (s * s) * hi
+  have h3 : s + i * c = i * (c - i * s) := by linear_combination s * hi
   rw [nullEq_mziInv, h1, h2, h3, ha, hb]
   linear_combination (-(2 * h * i * (c - i * s) * c * rb)) * hph + (2 * h * i * (c - i * s) * ea) * hmod
 
@@ -208,7 +208,9 @@ theorem cos_pi_div_four_sq : ((1 / 2 : ℂ)) =
     rw [Real.cos_pi_div_four]
     have := Real.mul_self_sqrt (show (0 : ℝ) ≤ 2 by norm_num)
     nlinarith
-  exact_mod_cast h
+  have h' := congrArg Complex.ofReal h
+  push_cast at h' ⊢
+  linear_combination h'
 
 theorem mziC_eq_mziMat (φa φb : ℝ) :
     mziC φa φb = mziMat I (1 / 2) (exp ((φa : ℂ) * I)) (exp ((φb : ℂ) * I)) :=
